@@ -40,6 +40,14 @@ func vWatch(s *syncer, key string, prefix bool) (clientv3.Watcher, clientv3.Watc
 	return &vWatcher{}, vWatchCh
 }
 
+// vBytes: as the etcd client decodes it - an empty value is a nil byte slice
+func vBytes(v string) []byte {
+	if v == "" {
+		return nil
+	}
+	return []byte(v)
+}
+
 func vHasPrefix(k, p string) bool { return len(k) >= len(p) && k[:len(p)] == p }
 
 func vGetRawPrefix(c *cluster, prefix string) (map[string]*mvccpb.KeyValue, error) {
@@ -49,7 +57,7 @@ func vGetRawPrefix(c *cluster, prefix string) (map[string]*mvccpb.KeyValue, erro
 	out := map[string]*mvccpb.KeyValue{}
 	for k, v := range vStoreKV {
 		if vHasPrefix(k, prefix) {
-			out[k] = &mvccpb.KeyValue{Key: []byte(k), Value: []byte(v), ModRevision: vStoreRev[k]}
+			out[k] = &mvccpb.KeyValue{Key: []byte(k), Value: vBytes(v), ModRevision: vStoreRev[k]}
 		}
 	}
 	return out, nil
@@ -60,7 +68,7 @@ func vGetRaw(c *cluster, key string) (*mvccpb.KeyValue, error) {
 		return nil, errors.New("etcd server unavailable")
 	}
 	if v, ok := vStoreKV[key]; ok {
-		return &mvccpb.KeyValue{Key: []byte(key), Value: []byte(v), ModRevision: vStoreRev[key]}, nil
+		return &mvccpb.KeyValue{Key: []byte(key), Value: vBytes(v), ModRevision: vStoreRev[key]}, nil
 	}
 	return nil, nil
 }
@@ -235,7 +243,7 @@ func verifC19_SyncKey() {
 			vStoreKV[k] = v
 			vRevision++
 			vStoreRev[k] = vRevision
-			ev = &clientv3.Event{Type: mvccpb.PUT, Kv: &mvccpb.KeyValue{Key: []byte(k), Value: []byte(v), ModRevision: vRevision}}
+			ev = &clientv3.Event{Type: mvccpb.PUT, Kv: &mvccpb.KeyValue{Key: []byte(k), Value: vBytes(v), ModRevision: vRevision}}
 		}
 		after, has := vStoreKV[key]
 		if had != has || before != after {
